@@ -51,8 +51,10 @@ claim("C20", "field-flow and variant-flow identity on MIR pairs (new / embed) wi
       "same-typed sibling), no source field is silently defaulted outside the reasoned exception table, every mirror field is read on "
       "load and saved from its source field; for enum mirrors the composition source variant -> mirror variant -> source variant is the "
       "identity, unsupported (panicking) variants are an enumerated set and no catch-all arm swallows a source variant; cached lowerings "
-      "are consulted only for crates with a configured cache file." + DECIDES +
-      " Consistency of the id lookup tables across sections and blob/settings matching are not decided.",
+      "are consulted only for crates with a configured cache file; the interning tables of the saving contexts store payloads computed from the key alone; "
+      "the validity test of a crate cache compares every field of the recorded metadata (compiler version, settings, global flags) with the freshly "
+      "computed one, field against field, and refuses on a mismatch." + DECIDES +
+      " Consistency of the id lookup tables across sections and whether the recorded metadata is *sufficient* (covers every input of the cached phases) are not decided.",
       "trusted: rustc MIR, fact dumper, name-based pairing of mirror and source fields; tables/c20_exceptions.tsv lists reasoned exceptions; known_findings.jsonl lists one genuine defect",
       "DESIGN.md section 4, C20")
 claim("C14", "call-graph reachability (class-hierarchy resolution) + panic-site inventory + allocation-size provenance + guard obligations",
